@@ -201,7 +201,7 @@ func exec(op string) (res string) {
 		return polSettled()
 	case "prepl", "xprepl", "ppick", "spick":
 		return polQuery(w)
-	case "strategy":
+	case "strategy", "sstrategy":
 		cls, err := vh.UnHex(w[1])
 		if err != nil {
 			return "bad-op"
@@ -598,16 +598,26 @@ func (ru *run) fixed() {
 	ru.cluster(mk("r", node{1, 1, 1, b(7)}), []string{"1=1", "1=3", "2=1", "-"}, []int{0, 1, 3}, 100)
 }
 
+// the strategy classes Cassandra ships: for them getStrategy's answer is specified (Spec.strategy, theorem C10_strategy)
+var shippedClasses = map[string]bool{simpleClass: true, "SimpleStrategy": true, ntsClass: true, "NetworkTopologyStrategy": true,
+	"org.apache.cassandra.locator.LocalStrategy": true, "LocalStrategy": true}
+
 func (ru *run) strategies(n int) {
 	r := ru.r
-	classes := []string{simpleClass, "SimpleStrategy", ntsClass, "NetworkTopologyStrategy", "org.apache.cassandra.locator.LocalStrategy",
+	classes := []string{simpleClass, "SimpleStrategy", ntsClass, "NetworkTopologyStrategy", "org.apache.cassandra.locator.LocalStrategy", "LocalStrategy",
+		simpleClass, ntsClass, ntsClass,
 		"EverywhereStrategy", "", "simplestrategy", "SimpleStrategyNetworkTopologyStrategy", "xNetworkTopologyStrategySimpleStrategy", "LocalStrategySimpleStrategy"}
-	keys := []string{"replication_factor", "class", "dc1", "dc2", "DC1", ""}
-	strs := []string{"3", "0", "-1", "+2", "abc", "", " 1", "007", "9223372036854775807", "9223372036854775808", "-9223372036854775808", "1_0", "-", "+", "-0", "12x", "٣"}
+	keys := []string{"replication_factor", "class", "dc1", "dc2", "DC1", "", "dc3", "replication_factor "}
+	strs := []string{"3", "0", "-1", "+2", "abc", "", " 1", "007", "9223372036854775807", "9223372036854775808", "-9223372036854775808", "1_0", "-", "+", "-0", "12x", "٣",
+		"3/1", "18446744073709551616", "00", "2147483648", "+0", "-00", "--1", "+-1", "1 ", "0x10", "1e1", "99999999999999999999999999"}
 	for i := 0; i < n; i++ {
 		cls := classes[r.Intn(len(classes))]
+		word := "strategy"
+		if shippedClasses[cls] {
+			word = "sstrategy"
+		}
 		var sb strings.Builder
-		sb.WriteString("strategy " + vh.Hex([]byte(cls)))
+		sb.WriteString(word + " " + vh.Hex([]byte(cls)))
 		perm := r.Intn(1 << uint(len(keys)))
 		for k, key := range keys {
 			if perm&(1<<uint(k)) == 0 {
@@ -621,6 +631,9 @@ func (ru *run) strategies(n int) {
 				v = "x:f"
 			case 3:
 				v = []string{"x:i64", "x:nil"}[r.Intn(2)]
+			case 4:
+				// Cassandra's own rendering of a number (Integer.toString): every magnitude
+				v = "s:" + vh.Hex([]byte(fmt.Sprint(r.U64()>>uint(r.Intn(64)))))
 			default:
 				v = "s:" + vh.Hex([]byte(strs[r.Intn(len(strs))]))
 			}
@@ -631,7 +644,11 @@ func (ru *run) strategies(n int) {
 		}
 		a := exec(sb.String())
 		k := strings.Fields(a)[0]
-		ru.out.Case(sb.String(), a, "strategy/"+k, true)
+		cl := "strategy/" + k
+		if word == "sstrategy" {
+			cl = "sstrategy(spec)/" + k
+		}
+		ru.out.Case(sb.String(), a, cl, true)
 	}
 }
 
